@@ -1,6 +1,6 @@
 """C07 — recursive schemas produce finitely sized types (structural clauses)."""
 import re
-from lib import (walk, nodes, ends, src, psrc, outcome, contains_node, pat_top_variants, short, calls_in, block_last,
+from lib import (Canon, walk, nodes, ends, src, psrc, outcome, contains_node, pat_top_variants, short, calls_in, block_last,
                  strip_refs, guards, gtext, templates_in, top_stmts)
 import tmplparse as tp
 
@@ -90,12 +90,18 @@ def run(facts, rep, tier):
         else:
             rep.ob("C07.D1", "heap-or-opaque:%s" % vname, True, "%s is %s" % (vname, kind))
     # named kinds: which fields are walked
-    for vname, need in (("Struct", ["prop.type_id"]), ("Newtype", ["type_id"]), ("Enum", ["variants.iter_mut()", "VariantDetails::Item", "VariantDetails::Tuple", "VariantDetails::Struct", "prop.type_id"])):
+    cne = Canon(c, eh, 4)
+    NEED = {
+        "Struct": [r"~TypeEntryStruct\.properties\.iter_mut\(\)\.map\(\|\.\.\| elem<[^>]*properties\.iter_mut\(\)>\.type_id\)"],
+        "Newtype": [r"~TypeEntryNewtype\.type_id"],
+        "Enum": [r"~TypeEntryEnum\.variants\.iter_mut\(\)\.flat_map\(", r"VariantDetails::Item\(_\) => vec!\(elem<[^>]*>\.details~Item\)", r"VariantDetails::Tuple\(_\) => elem<[^>]*>\.details~Tuple\.iter_mut\(\)\.collect\(\)", r"VariantDetails::Struct\(_\) => elem<[^>]*>\.details~Struct\.iter_mut\(\)\.map\(\|\.\.\| elem<.*?>\.type_id\)"],
+    }
+    for vname, need in NEED.items():
         got = enumerated.get(vname)
         if got and got[0]:
-            s = src(got[1]["body"]) + " " + psrc(got[1]["pat"])
-            missing = [x for x in need if x not in s]
-            rep.ob("C07.D1", "fields-walked:%s" % vname, not missing, "%s: walks %s" % (vname, need) if not missing else "%s arm of the child enumerator does not walk %s" % (vname, missing), got[1].get("sp"))
+            s = cne.r(got[1]["body"])
+            missing = [x for x in need if not re.search(x, s)]
+            rep.ob("C07.D1", "fields-walked:%s" % vname, not missing, "%s: every id-carrying field is walked" % vname if not missing else "%s arm of the child enumerator does not walk %s (arm: %s)" % (vname, missing, s[:160]), got[1].get("sp"))
     # VariantDetails cases
     vd = c.adt("VariantDetails")
     if vd:
@@ -181,8 +187,13 @@ def run(facts, rep, tier):
         s = src(h["body"])
         # snip predicate
         part = [n for n, _ in nodes(h["body"], "mcall") if n["name"] == "partition"]
-        ok = bool(part) and "active.contains(child_id)" in src(part[0]["args"][0]) and "!" not in src(part[0]["args"][0])
-        rep.ob("C07.W3", "snip-iff-active", ok, "children are snipped iff `%s`" % (src(part[0]["args"][0]) if part else "?"), part[0].get("sp") if part else None)
+        ok = False
+        if part and part[0].get("args") and part[0]["args"][0].get("k") == "closure":
+            clo = part[0]["args"][0]
+            b = block_last(clo["body"])
+            pn = [x["name"] for p_ in clo.get("params", []) for x, _ in walk(p_) if x.get("k") == "bind"]
+            ok = b.get("k") == "mcall" and b["name"] == "contains" and strip_refs(b["recv"]).get("k") == "path" and len(b.get("args", [])) == 1 and strip_refs(b["args"][0]).get("path") in pn and "BTreeSet<TypeId>" in c.ty(strip_refs(b["recv"]).get("ty"))
+        rep.ob("C07.W3", "snip-iff-active", ok, "children are snipped iff they are in the active set" if ok else "the snip predicate is `%s`" % (src(part[0]["args"][0]) if part else "?"), part[0].get("sp") if part else None)
         # (snip, descend) order of partition result
         lets = [n for n, _ in nodes(h["body"], "let") if n["pat"].get("k") == "tuple" and contains_node(n.get("init") or {}, part[0] if part else {})]
         if lets:
